@@ -90,9 +90,14 @@ MANIFEST = dict(
          "[new()] | [0] (a bare index only directly after an element-creating step). Relative spellings of the creation "
          "paths and histories whose operations use non-canonical spellings are differential only (single deletes/pops in "
          "every spelling: C05_delete_spellings, C05_pop_spellings). Index steps on single values: proved for the value of a "
-         "key (any spelling of the index, any dict node, fresh names after name[1]); a single value that is an element of a "
-         "list, indexes written as steps of their own (a/[1]), later creation steps after name[1] and hidden indexes in the "
-         "middle of a path are instances + evaluator hidden_index + B. Hist.ValidOp still carries the conjunct about plain "
+         "key (any spelling of the index, any dict node, fresh names after name[1]); also proved (Proofs/XPathHiddenCreate): "
+         "C03_index_own_step (name/[1]/tail.. = name[1]/tail..), C03_index_own_step_refused (P/[e].., e >= 2 or < -1), C03_create_hidden_middle (name[0|-1]/fresh.. on a dict "
+         "creates what name/fresh.. creates; C03_create_hidden_middle_own / _elem: P/[e]/fresh.. for any plain P incl. the root, "
+         "..[i][e]/fresh..), C03_hidden_elem_refused (..[i][e] and ..[i]/[e], e not 0/-1, on a single value "
+         "that is an element of a list: SyntaxError, tree unchanged), C03_hidden_root_refused ([e].. and //[e].. on the root, e "
+         "not 0/-1). The root [0] TypeError, later creation steps after name[1] "
+         "other than fresh names and hidden indexes before element-creating steps are instances + evaluator hidden_index "
+         "+ B. Hist.ValidOp still carries the conjunct about plain "
          "lists that finding C03-c needed; it is no longer used by the proof.",
     design_ref="5/C03",
 )
